@@ -15,7 +15,7 @@ EXTENDS ArpHunt, Json
 CONSTANTS Mode, TraceFile
 VARIABLES ln,      \* next line to consume
           skip     \* the current behaviour contradicted a property-level predicate: its remaining lines are skipped
-tvars == <<hunt, loops, closed, offer, hostOf, out, ev, refHunt, refClosed, refOffer, rl, poisoned, pre, ln, skip>>
+tvars == <<hunt, loops, closed, offer, hostOf, pend, out, ev, refHunt, refClosed, refOffer, rl, poisoned, pre, ln, skip>>
 
 Trace == ndJsonDeserialize(TraceFile)
 HW == 1                                  \* TLC register: highest line consumed
@@ -52,7 +52,7 @@ Do(mm, rec, rr) ==
      THEN /\ mm /\ ev' = rec /\ out' = LFrames /\ PcsMatch
           /\ (HasList => ListOK /\ hunt' = LHunt)
      ELSE /\ ev' = rec /\ out' = LFrames
-          /\ UNCHANGED <<loops, closed, offer, hostOf>>
+          /\ UNCHANGED <<loops, closed, offer, hostOf, pend>>
           /\ hunt' = IF HasList /\ ListOK THEN LHunt
                      ELSE IF HasList THEN [m \in Targets |-> NoIP]          \* unreadable list: fails P_ListMatches unless nothing is hunted
                      ELSE [m \in Targets |-> IF m \in refHunt' THEN RouterIP ELSE NoIP]   \* list not observed on this line
@@ -65,7 +65,7 @@ Note == [kind |-> "note"]
 RecordFailure == (~skip /\ Verdict # "none") => TLCSet(VI, Append(TLCGet(VI), <<ln - 1, Verdict>>))
 TReset == /\ ln <= Len(Trace) /\ E.a = "reset" /\ ln' = ln + 1 /\ skip' = FALSE /\ RecordFailure
           /\ hunt' = [m \in Targets |-> NoIP] /\ loops' = <<>> /\ closed' = FALSE
-          /\ offer' = [m \in Targets |-> NoIP] /\ hostOf' = [ip \in LanIPs |-> NilMAC] /\ out' = <<>> /\ ev' = [kind |-> "init"]
+          /\ offer' = [m \in Targets |-> NoIP] /\ hostOf' = [ip \in LanIPs |-> NilMAC] /\ pend' = [m \in Targets |-> <<>>] /\ out' = <<>> /\ ev' = [kind |-> "init"]
           /\ refHunt' = {} /\ refClosed' = FALSE /\ refOffer' = [m \in Targets |-> NoIP]
           /\ rl' = <<>> /\ poisoned' = [m \in Targets |-> FALSE] /\ pre' = NoPre
 
@@ -86,12 +86,18 @@ TCheck == /\ IsEvent("check") /\ LoopKnown /\ E.tgt \in MacU
           /\ Do(LoopCheckM(E.l, E.tgt), [kind |-> "check", l |-> E.l, hunting |-> E.hunting, tgt |-> E.tgt], LoopCheckR(E.l))
 TAct == /\ IsEvent("act") /\ LoopKnown
         /\ Do(LoopActM(E.l), [kind |-> "act", l |-> E.l, done |-> E.done], LoopActR(E.l))
-TRecv == /\ IsEvent("recv") /\ E.sm \in Targets /\ E.si \in IpU /\ E.ti \in IpU
-         /\ Do(RecvM(E.op, E.sm, E.si, E.ti), [kind |-> "recv", op |-> E.op, sm |-> E.sm, si |-> E.si, ti |-> E.ti], RecvR)
+TRecv == /\ IsEvent("recv") /\ E.sm \in Targets /\ E.es \in Targets /\ E.si \in IpU /\ E.ti \in IpU
+         /\ Do(RecvM(E.op, E.es, E.sm, E.si, E.ti),
+               [kind |-> "recv", op |-> E.op, es |-> E.es, sm |-> E.sm, si |-> E.si, ti |-> E.ti], RecvR)
+\* E.n overlapping StartHunt calls for one address, released together and joined
+TCStart == /\ IsEvent("cstart") /\ E.mac \in MacU /\ E.ip \in IpU
+           /\ Do(ConcStartM(E.mac, E.ip, E.n),
+                 [kind |-> "cstart", mac |-> E.mac, ip |-> E.ip, n |-> E.n, errs |-> E.errs, spawned |-> E.spawned],
+                 StartHuntR(E.mac, E.ip, E.spawned))
 
 \* ---- real-time vocabulary (hook events in the order of the handler mutex; frames from the connection)
 NoteStep(cond) == /\ (Mode = "M" => cond) /\ ev' = Note /\ out' = <<>> /\ IdleR
-                  /\ UNCHANGED <<hunt, loops, closed, offer, hostOf>>
+                  /\ UNCHANGED <<hunt, loops, closed, offer, hostOf, pend>>
 TRtLoop == /\ IsEvent("rt.loop") /\ LoopKnown
            /\ NoteStep(loops[E.l].mac = E.mac /\ rl[E.l].mac = E.mac)
 TRtCheck == /\ IsEvent("rt.check") /\ LoopKnown /\ E.tgt \in MacU
@@ -124,7 +130,7 @@ TSkip == /\ ~Live /\ ln <= Len(Trace) /\ E.a # "reset" /\ ln' = ln + 1 /\ skip' 
 
 TraceInit == /\ ln = 1 /\ skip = FALSE /\ TLCSet(HW, 0) /\ TLCSet(VI, <<>>) /\ Init
 
-TraceNext == \/ TPanic \/ TSkip \/ TReset \/ TStart \/ TStop \/ TClose \/ TOffer \/ TTick \/ TCheck \/ TAct \/ TRecv
+TraceNext == \/ TPanic \/ TSkip \/ TReset \/ TStart \/ TStop \/ TClose \/ TOffer \/ TTick \/ TCheck \/ TAct \/ TRecv \/ TCStart
              \/ TRtLoop \/ TRtCheck \/ TRtFrame \/ TRtDone
 
 TraceSpec == TraceInit /\ [][TraceNext]_tvars
